@@ -109,6 +109,10 @@ pub struct Ctx {
     pub yield_permille: u32,
     pub yield_state: u64,
     pub yields: u64,
+    /// Late observation of elapsed sleeps (vendor/tokio verif_hook::set_late).
+    pub late_permille: u32,
+    pub late_state: u64,
+    pub lates: u64,
     /// E2: commands from the simulator to the component under test.
     pub comp_tx: Option<::tokio::sync::mpsc::UnboundedSender<(String, u64)>>,
 }
@@ -167,6 +171,9 @@ impl Ctx {
             yield_permille: 0,
             yield_state: 0x9E37_79B9_7F4A_7C15,
             yields: 0,
+            late_permille: 0,
+            late_state: 1,
+            lates: 0,
             comp_tx: None,
         }
     }
@@ -653,6 +660,29 @@ pub fn yield_coin() -> bool {
         let y = (r % 1000) < c.yield_permille as u64;
         if y {
             c.yields += 1;
+        }
+        y
+    })
+    .unwrap_or(false)
+}
+
+/// The late-timer oracle installed into tokio's `verif_hook`: a seeded coin of
+/// its own. At most a few times in a row (the coin is fair game each time, but
+/// a permille below 1000 ends the streak).
+pub fn late_coin() -> bool {
+    try_with(|c| {
+        if c.late_permille == 0 {
+            return false;
+        }
+        let mut x = c.late_state;
+        x ^= x >> 12;
+        x ^= x << 25;
+        x ^= x >> 27;
+        c.late_state = x;
+        let r = x.wrapping_mul(0x2545_F491_4F6C_DD1D) >> 33;
+        let y = (r % 1000) < c.late_permille as u64;
+        if y {
+            c.lates += 1;
         }
         y
     })
